@@ -273,15 +273,19 @@ func (db *DB) Get(key []byte) ([]byte, error) {
 		return nil, ErrKeyIsEmpty
 	}
 
+	// 必须先获取读锁再查询索引: 批处理持有写锁期间的提前刷盘(以及提交时的逐条更新)会立即修改索引,
+	// 无锁读取索引会观察到尚未提交、甚至最终被丢弃的批处理数据
+	db.mu.RLock()
 	// 从内存中获取 key 对应的索引数据
-	// 索引已能确保线程安全
 	logRecordPos := db.index.Get(key)
 	if logRecordPos == nil {
+		db.mu.RUnlock()
 		return nil, ErrKeyNotFound
 	}
 
-	// 获取 value 并返回
-	return db.getValueByPosition(logRecordPos)
+	// 获取 value 并返回, 读锁由 readValueAndUnlock 负责释放:
+	// 索引查询与活跃文件的读取处于同一个读锁临界区内
+	return db.readValueAndUnlock(logRecordPos)
 }
 
 // Delete 根据 key 删除数据
@@ -329,7 +333,10 @@ func (db *DB) Delete(key []byte) error {
 
 // ListKeys 获取数据库中的所有 key
 func (db *DB) ListKeys() [][]byte {
+	// 仅在创建索引快照时持有读锁, 保证快照不包含未提交的批处理数据
+	db.mu.RLock()
 	iterator := db.index.Iterator(false)
+	db.mu.RUnlock()
 	defer iterator.Close()
 	verifhook.Point("listkeys.afterSnapshot", "")
 	// 迭代器遍历的是创建时刻的快照, 而此处查询的是索引的实时大小,
@@ -345,7 +352,11 @@ func (db *DB) ListKeys() [][]byte {
 // Fold 对数据库所有项执行自定义操作, 项改变不会同步数据库
 func (db *DB) Fold(fn func(key []byte, value []byte) bool) error {
 	// 利用索引迭代器进行遍历
+	// 仅在创建索引快照时持有读锁, 保证快照不包含未提交的批处理数据;
+	// 读取 value 和执行回调前已释放, 回调中可以继续使用 DB 实例
+	db.mu.RLock()
 	iterator := db.index.Iterator(false)
+	db.mu.RUnlock()
 	// 使用完成后必须关闭, 否则可能导致 B+ 树索引的读写事务互斥阻塞
 	defer iterator.Close()
 	for iterator.Rewind(); iterator.Valid(); iterator.Next() {
@@ -641,11 +652,17 @@ func checkOptions(options Options) error {
 
 // 根据索引信息获取 value
 func (db *DB) getValueByPosition(logRecordPos *datafile.DataPos) ([]byte, error) {
+	db.mu.RLock()
+	return db.readValueAndUnlock(logRecordPos)
+}
+
+// 根据索引信息获取 value
+// 调用方必须已持有 db.mu 的读锁, 本方法负责释放: sync.RWMutex 的读锁不可重入
+func (db *DB) readValueAndUnlock(logRecordPos *datafile.DataPos) ([]byte, error) {
 	var (
 		dataFile *datafile.DataFile
 		isActive bool
 	)
-	db.mu.RLock()
 	if db.activeFile.ID == logRecordPos.Fid {
 		dataFile = db.activeFile
 		isActive = true
